@@ -31,7 +31,7 @@ ASSUME = ["the catalogue lists the cycle shapes named by the property; other sha
 def plan(tier):
     n = len(catalogue_index())
     if tier == "quick":
-        return {"ncases": len(quick_index()), "nshards": 16, "budget_s": 75, "floor": 5000, "stall_s": 40}
+        return {"ncases": len(quick_index()), "nshards": 16, "budget_s": 75, "floor": 20000, "stall_s": 30}
     return {"ncases": n * 40, "nshards": 16, "budget_s": 1500, "floor": 100000, "stall_s": 120}
 
 
@@ -194,10 +194,49 @@ def abstract_deferred_ring(k):
     return [("amod", ".f90", f"module amod\n  implicit none\n{types}{ifs}contains\n{impl}end module amod\n")]
 
 
+def use_complete(k):
+    """every module uses every other one (and itself for k=1)"""
+    units = []
+    for i in range(k):
+        uses = "".join(f"  use dm{j}\n" for j in range(k) if j != i or k == 1)
+        units.append((f"dm{i}", ".f90", f"module dm{i}\n{uses}  implicit none\n  integer :: dv{i}\ncontains\n  subroutine ds{i}()\n    dv{i} = dv{(i + 1) % k}\n  end subroutine ds{i}\nend module dm{i}\n"))
+    units.append(("dmain", ".f90", "program dmain\n  use dm0\n  dv0 = 1\n  call ds0()\nend program dmain\n"))
+    return units
+
+
+def submodule_rho(k):
+    units = [("smod", ".f90", "module smod\n  implicit none\n  interface\n    module subroutine ssub(a)\n      integer :: a\n    end subroutine ssub\n  end interface\n  integer :: sv\nend module smod\n")]
+    for i in range(k + 1):
+        j = i + 1 if i < k else 1
+        units.append((f"sub{i}", ".f90", f"submodule (sub{j}) sub{i}\n  implicit none\n  integer :: w{i}\ncontains\n  module subroutine ssub(a)\n    integer :: a\n    a = w{i} + sv\n  end subroutine ssub\n  subroutine loc{i}()\n    w{i} = w{j}\n  end subroutine loc{i}\nend submodule sub{i}\n"))
+    return units
+
+
+def extends_rho(k):
+    body = ""
+    for i in range(k + 1):
+        j = i + 1 if i < k else 1
+        body += f"  type, extends(xt{j}) :: xt{i}\n    integer :: c{i}\n  contains\n    procedure :: p => ximpl{i}\n  end type xt{i}\n"
+    impls = "".join(f"  subroutine ximpl{i}(self)\n    class(xt{i}) :: self\n    self%c{i} = 1\n    call self%p()\n  end subroutine ximpl{i}\n" for i in range(k + 1))
+    return [("xmod", ".f90", "module xmod\n  implicit none\n" + body + "contains\n" + impls + "end module xmod\n"),
+            ("xprog", ".f90", f"program xprog\n  use xmod\n  type(xt0) :: obj\n  obj%c0 = 2\n  obj%c{k} = 1\n  call obj%p()\nend program xprog\n")]
+
+
+def pointer_rho(k):
+    decl = "".join(f"  integer, pointer :: qa{i} => qa{i + 1 if i < k else 1}\n" for i in range(k + 1))
+    assoc = ", ".join(f"qx{i} => qx{i + 1 if i < k else 1}" for i in range(k + 1))
+    binds = "".join(f"    procedure :: qb{i} => qb{i + 1 if i < k else 1}\n" for i in range(k + 1))
+    return [("qprog", ".f90", f"module qmod\n  type :: qt\n  contains\n{binds}  end type qt\nend module qmod\nprogram qprog\n  use qmod\n  implicit none\n{decl}  type(qt) :: qo\n  qa0 = qa1\n  call qo%qb0()\n  associate ({assoc})\n    qa0 = qx0\n  end associate\nend program qprog\n")]
+
+
 CATALOGUE = [
     ("use-ring", lambda k: use_ring(k)),
     ("use-only-ring", lambda k: use_ring(k, only=True)),
     ("use-rename-ring", rename_ring),
+    ("use-complete-graph", use_complete),
+    ("submodule-rho", submodule_rho),
+    ("extends-rho", extends_rho),
+    ("link-rho", pointer_rho),
     ("extends-ring", lambda k: extends_ring(k, override=False)),
     ("extends-ring-override", lambda k: extends_ring(k, override=True)),
     ("extends-ring-cross-module", lambda k: extends_ring(k, override=True, cross=True)),
@@ -235,7 +274,7 @@ def catalogue_index():
 
 def quick_index():
     """quick tier: every entry x every k; placements/routes complete for k<=2, two combinations for k>=3"""
-    return [c for c in catalogue_index() if c[1] <= 2 or (c[2], c[3]) in (("split", "pooled"), ("joined", "incremental-reversed"))]
+    return catalogue_index()
 
 
 FILLER_DECL = ["  integer :: fill_a\n", "  real, allocatable :: fill_b(:)\n", "  character(len=3) :: fill_c\n"]
@@ -385,5 +424,5 @@ def on_stuck(i, why, tail, mark):
 
 
 def finalize(stats, kinds):
-    return {"exhaustive_part": "thorough: catalogue entries x k in 1..4 x {split, joined} x {pooled, incremental, incremental-reversed}, every combination; quick: every entry x k with all placements/routes for k<=2 and two combinations for k>=3",
+    return {"exhaustive_part": "thorough: catalogue entries x k in 1..4 x {split, joined} x {pooled, incremental, incremental-reversed}, every combination; quick: the same complete enumeration (identifier end columns sampled)",
             "catalogue_entries": [n for n, _ in CATALOGUE]}
